@@ -205,7 +205,17 @@ def corr_scripted(ck, rng):
                     ref_masks = np.asarray(Stub(tmpls[0], mask, rotations=rots)._get_template_and_mask_input()[1])
                     Stub.expected_masks = [ref_masks[c_ // T] for c_ in range(T * K)]
                 res = model.align(img, (1, 1, 1))
+                # fit() searches the same candidates in parallel and decodes the winner itself
+                _, resf = model.fit(img, (1, 1, 1))
                 Stub.expected_masks = None
+                qf = np.asarray(model.quaternions)
+                qif = [i_ for i_ in range(len(qf)) if np.allclose(qf[i_], resf.quat)]
+                winf = int(np.argmax(sc))
+                ck.oracle_count("scripted_winner_identity", 1, 1)
+                if (int(resf.label), qif[0] if qif else -1) != (winf % T, winf // T) or abs(float(resf.score) - sc[winf]) > 1e-6:
+                    ck.violation(what=f"model.fit: best candidate is (template {winf % T}, rotation #{winf // T}) but fit reports (label {int(resf.label)}, "
+                                      f"rotation #{qif[0] if qif else -1}, score {float(resf.score)})", inp={"T": T, "K": K, "scores": sc},
+                                 key={"site": "model.fit-scripted", "T>1": T > 1, "K>1": K > 1}, oracle="scripted_winner_identity")
                 ck.oracle_count("candidate_uses_own_mask", 1, 1 if (mask is not None and K > 1) else 0)
                 if Stub.pairing_errors:
                     ck.violation(what=f"model.align: candidates {sorted(set(i_ for _, i_ in Stub.pairing_errors))} were scored on a sub-volume masked with another candidate's mask",
@@ -412,6 +422,33 @@ def corr_rotation_set(ck, rng):
                 describe=lambda c: {"site": "rotation-set", "multiple": (c["step"] == 0 or abs(c["max"] / c["step"] - round(c["max"] / c["step"])) < 1e-9)})
 
 
+def oracle_callable_mask(ck, rng):
+    """a mask given as a function of the template: with several templates the model uses the voxel-wise maximum of the masks of all
+    templates (so that every template's density is considered), with one template that template's mask"""
+    from acryo.alignment import ZNCCAlignment, PCCAlignment
+    from acryo import pipe
+    for it in range(3 if ck.tier == "quick" else 12):
+        T = [2, 3, 1][it % 3]
+        tmpls = []
+        for j in range(T):
+            t = np.zeros((7, 7, 7), dtype=np.float32)
+            t[2:5, 2:5, 2:5] = 1.0
+            t[tuple(int(x) for x in rng.choice([0, 1, 5, 6], size=3))] = 2.0 + j       # a distinguishing voxel outside the shared core
+            tmpls.append(t)
+        fn = (lambda im: (np.asarray(im) > 0.5).astype(np.float32))
+        for mk_name, mk in (("function", fn), ("converter", pipe.converter_function(lambda im, scale: (np.asarray(im) > 0.5).astype(np.float32))())):
+            if mk_name == "converter":
+                continue          # converters need a scale: resolved by the loader (normalize_mask), covered by C19
+            for M in (ZNCCAlignment, PCCAlignment):
+                model = M(tmpls if T > 1 else tmpls[0], mk)
+                want = np.max(np.stack([fn(t) for t in tmpls]), axis=0)
+                ck.oracle_count("callable_mask_union", 1, 1 if T > 1 else 0)
+                if not np.array_equal(np.asarray(model.mask), want):
+                    ck.violation(what=f"{M.__name__} with {T} templates and a callable mask: the model's mask differs from the union of the templates' masks "
+                                      f"in {int((np.asarray(model.mask) != want).sum())} voxels", inp={"T": T}, key={"site": "callable-mask", "T>1": T > 1},
+                                 oracle="callable_mask_union")
+
+
 def oracle_rotation_set(ck, rng):
     from acryo._rotation import normalize_rotations
     from scipy.spatial.transform import Rotation
@@ -448,6 +485,7 @@ def run(ck: common.Check):
     corr_loader(ck, rng)
     oracle_real(ck, rng)
     oracle_rotation_set(ck, rng)
+    oracle_callable_mask(ck, np.random.default_rng(ck.seed + 616161))
     corr_rotation_set(ck, np.random.default_rng(ck.seed + 60606))
 
 
